@@ -66,6 +66,10 @@ theorem pre_spec (k : FrameKind) (ret : Beh) (s s1 : Vm) (h : k.pre ret s = some
     simp only [FrameKind.pre, Option.some.injEq] at h; subst h
     exact ⟨⟨⟨[], by simp [levelRegs, Vm.regs]⟩, ⟨[], by simp⟩, ⟨[], by simp⟩, ⟨[], by simp⟩⟩, rfl, rfl,
       fun hi => inv_of_eq rfl rfl hi⟩
+  | priv =>
+    simp only [FrameKind.pre, Option.some.injEq] at h; subst h
+    exact ⟨⟨⟨[], by simp [levelRegs, Vm.regs]⟩, ⟨[], by simp⟩, ⟨[], by simp⟩, ⟨[], by simp⟩⟩, rfl, rfl,
+      fun hi => inv_of_eq rfl rfl hi⟩
 
 theorem post_spec (k : FrameKind) (ret : Beh) (s s1 s2 : Vm) (h : k.pre ret s = some s1)
     (hs : Same s1 s2) : Same s (k.post s2) ∧ (k.post s2).interrupted = s2.interrupted := by
@@ -118,6 +122,11 @@ theorem post_spec (k : FrameKind) (ret : Beh) (s s1 s2 : Vm) (h : k.pre ret s = 
     refine ⟨⟨hs.sp, ?_, ?_, hs.privEnv, hs.cs, hs.ts, hs.is, hs.rs⟩, rfl⟩
     · simpa [FrameKind.post, Vm.regs] using hr
     · have := hs.stash; simp only [FrameKind.post] at this ⊢; simp [this]
+  | priv =>
+    simp only [FrameKind.pre, Option.some.injEq] at h; subst h
+    refine ⟨⟨hs.sp, ?_, hs.stash, ?_, hs.cs, hs.ts, hs.is, hs.rs⟩, rfl⟩
+    · simpa [FrameKind.post, Vm.regs] using hr
+    · have := hs.privEnv; simp only [FrameKind.post] at this ⊢; simp [this]
 
 /-- a bracketing frame operation around a sub-behaviour obeys the discipline -/
 theorem frame_good {runF : RunF} (HG : HypG runF) (lf : Nat) (k : FrameKind) (ret body : Beh) (s : Vm)
